@@ -163,7 +163,7 @@ def write_world(d: Path, w: Dict[str, Any]) -> Path:
         rhead.append("allows_pooling")
     rows = []
     for r in w["requests"]:
-        row = [r["id"], f"{r['o'][0]:.7f}", f"{r['o'][1]:.7f}", f"{r['d'][0]:.7f}", f"{r['d'][1]:.7f}",
+        row = [r["id"], "" if r.get("malformed") else f"{r['o'][0]:.7f}", f"{r['o'][1]:.7f}", f"{r['d'][0]:.7f}", f"{r['d'][1]:.7f}",
                r["dep"], r.get("pax", 1)]
         if fleet_col:
             row.append(r.get("fleet") or "")
